@@ -158,7 +158,8 @@ async def _writer_do(env, state, op) -> list[bytes]:
 
 async def _one_program(ctx, kind: str, seed: int, steps: int, weights: dict,
                        first: list | None = None, final=None, observer: bool = False,
-                       interfere: float = 0.0, free: bool = False, colon: str | None = None):
+                       interfere: float = 0.0, free: bool = False, colon: str | None = None,
+                       layout: str = '++', tables=None, salt: str = ''):
     """Run one program; returns (env, init, steps, monitor findings).
     `free`: no discipline after interference (any command, sequence numbers and '*'
     included) and no comparison with the Python reference, which cannot follow what a
@@ -169,8 +170,16 @@ async def _one_program(ctx, kind: str, seed: int, steps: int, weights: dict,
     the latter go into the Python reference as plain state changes."""
     import asyncio
     import random
-    rng = random.Random(f'{ctx.prop}-{ctx.seed}-{kind}-{seed}')
-    env = await R.Env(kind, colon).start(rng, prefill=rng.choice([0, 3, 6]) if kind == 'maildir' else 0)
+    rng = random.Random(f'{ctx.prop}-{ctx.seed}-{kind}-{seed}{salt}')
+    # maildir: every folder has its own dovecot-keywords table; `tables` = None: a generated
+    # shape (permuted / overlapping / disjoint / partial / the fixed default), else given
+    if kind == 'maildir' and tables is None:
+        from .. import c10_kwtables as K
+        tables = K.gen_tables(rng)[1]
+    elif tables == 'default':
+        tables = None
+    env = await R.Env(kind, colon, layout, tables).start(
+        rng, prefill=rng.choice([0, 3, 6]) if kind == 'maildir' else 0)
     try:
         state = {'ref': None, 'cid': 0, 'problems': [], 'wconn': None, 'wlog': []}
 
@@ -250,6 +259,7 @@ async def _one_program(ctx, kind: str, seed: int, steps: int, weights: dict,
                         m['cid'] = nextcid()
             line = env.tag() + b' ' + R.render(cmd, env.names) + b'\r\n'
             st = {'cmd': cmd, 'wire': line, 'raw': b'', 'out': None, 'dump': last_dump()}
+            files_before = env.files()      # maildir: uidlist records and file names on disk
             # ---- watchdog: every command must get its tagged response
             try:
                 raw = await _guard(env.conn.cmd(line))
@@ -264,6 +274,8 @@ async def _one_program(ctx, kind: str, seed: int, steps: int, weights: dict,
             out = R.read_response(raw, env.contents,
                                   'select' if cmd['k'] == 'select' else 'other', env.names)
             st['raw'], st['out'] = raw, out
+            if files_before is not None:
+                st['files'] = (files_before, env.files())     # before the probe looks
             try:
                 dump = await _guard(env.dump(), 3 * STEP_TIMEOUT)
             except asyncio.TimeoutError:
@@ -415,6 +427,8 @@ def _replay_obj(kind, init, steps, k=None):
             return [js(x) for x in o]
         return o
     return {'backend': kind, 'failing_step': k,
+            'maildir_config': next((b['config'] for b in init if b.get('config')), None),
+            'keyword_tables': {b['name']: b['kwfile'] for b in init if b.get('kwfile')} or None,
             'program': [js(s['wire']) for s in steps],
             'note': 'lines tagged wN are sent by a second connection between the commands',
             'commands': [js(s.get('cmd') or s.get('ext')) for s in steps],
@@ -439,7 +453,10 @@ def _drive(j: int):
     try:
         env, init, sts, problems = run_async(_one_program(
             t['ctx'], kind, i, steps, t['weights'], f, t['final'], obs,
-            t['interfere'], t['free'], t['colon']), 600.0)
+            t['interfere'], t['free'],
+            t['colon'](i) if callable(t['colon']) else t['colon'],
+            t['layout'](i) if callable(t['layout']) else t['layout'],
+            t['tables'](i) if callable(t['tables']) else t['tables'], t['salt']), 600.0)
     except (TimeoutError, RuntimeError) as exc:
         return {'kind': kind, 'i': i, 'exc': repr(exc), 'stuck': isinstance(exc, TimeoutError),
                 'first': repr(f)[:2000]}
@@ -468,14 +485,14 @@ def _results(n: int):
 
 def run_programs(ctx, label: str, plan: list, weights: dict, first=None, final=None,
                  observer=None, on_program=None, interfere: float = 0.0, free: bool = False,
-                 colon: str | None = None) -> None:
+                 colon: str | None = None, layout: str = '++', tables=None, salt: str = '') -> None:
     """plan: [(kind, n_programs, steps)]"""
     cases, keep = [], []
     hist: dict = {}
     stuck = 0
     _TASK.clear()
     _TASK.update(ctx=ctx, weights=weights, first=first, final=final, observer=observer,
-                 interfere=interfere, free=free, colon=colon,
+                 interfere=interfere, free=free, colon=colon, layout=layout, tables=tables, salt=salt,
                  items=[(kind, i, steps) for kind, n, steps in plan for i in range(n)])
     for r in _results(len(_TASK['items'])):
         kind, i = r['kind'], r['i']
@@ -491,6 +508,17 @@ def run_programs(ctx, label: str, plan: list, weights: dict, first=None, final=N
                          'backend': kind})
             continue
         init, sts, problems = r['init'], r['sts'], r['problems']
+        if kind == 'maildir':
+            # input distribution: how the folders' keyword tables relate in this program
+            tabs = [dict(b['kwfile']) for b in init if b.get('kwfile')]
+            pairs = [(x, y) for n, x in enumerate(tabs) for y in tabs[n + 1:]]
+            shape = ('same_set_other_numbers' if any(set(x.values()) == set(y.values()) and x != y
+                                                     for x, y in pairs)
+                     else 'overlapping_sets' if any(set(x.values()) & set(y.values()) and x != y
+                                                    for x, y in pairs)
+                     else 'identical_disjoint_or_single')
+            sh = ctx.extra.setdefault('keyword_table_shapes', {}).setdefault(label, {})
+            sh[shape] = sh.get(shape, 0) + 1
         if on_program is not None:
             on_program(kind, init, sts)
         for clause, cls, k, st in problems:
@@ -772,9 +800,11 @@ def run(ctx) -> None:
         if os.environ.get('PV_TIMING'):
             print(f'[timing] {what}: {_time.time() - _t0[0]:.1f}s', file=sys.stderr)
         _t0[0] = _time.time()
-    ctx.check_proofs(['RefModel/Check'])
+    ctx.check_proofs(['RefModel/Check', 'RefModel/KwTablesCheck'])
     _lap('check_proofs')
     _flag_cases(ctx)
+    from .. import c10_kwtables as K
+    K.dest_flags_cases(ctx)
     _lap('flag_cases')
     nd = ctx.scale(300, 1600)
     nm = ctx.scale(60, 300)
@@ -782,8 +812,15 @@ def run(ctx) -> None:
     for kind in ('dict', 'maildir'):
         sc = scenarios(kind)
         run_programs(ctx, f'scenarios_{kind}', [(kind, len(sc), 0)], R.C10_WEIGHTS,
-                     first=lambda i, sc=sc: sc[i])
+                     first=lambda i, sc=sc: sc[i], tables='default')
         _lap(f'scenarios_{kind}')
+    # maildir folders whose dovecot-keywords tables are permutations of one another / overlap
+    # / are disjoint / differ in length: every COPY / MOVE form in both directions
+    ksc = K.scenarios()
+    run_programs(ctx, 'kwtable_scenarios', [('maildir', len(ksc), 0)], R.C10_WEIGHTS,
+                 first=lambda i: ksc[i][2], tables=lambda i: ksc[i][1])
+    run_programs(ctx, 'kwtable_programs', [('maildir', ctx.scale(20, 150), 16)], K.WEIGHTS, salt='-kw')
+    _lap('kwtables')
     run_programs(ctx, 'programs', [('dict', nd, 20), ('maildir', nm, 20)], R.C10_WEIGHTS)
     _lap('programs')
     # the same with a second connection writing in between (monitor: Python reference)
